@@ -1,11 +1,16 @@
 #!/bin/sh
 # tools/with_mutant.sh <patch-file> <command...> : run a command with VERIF_REPO pointing at a scratch
+# (BASE_REV=<commit> takes the files of that commit instead of the working tree)
 # copy of /repo (outside /repo and /verif) to which the patch has been applied; the copy is removed afterwards.
 set -eu
 PATCH=$(realpath "$1"); shift
 D=$(mktemp -d /tmp/mutrepo.XXXXXX)
 trap 'rm -rf "$D"' EXIT
 mkdir -p "$D/repo"
-( cd /repo && git ls-files -z incomplete_cooperative setup.py setup.cfg | xargs -0 cp --parents -t "$D/repo" )
+if [ -n "${BASE_REV:-}" ]; then
+  ( cd /repo && git archive "$BASE_REV" incomplete_cooperative setup.py setup.cfg | tar -x -C "$D/repo" )
+else
+  ( cd /repo && git ls-files -z incomplete_cooperative setup.py setup.cfg | xargs -0 cp --parents -t "$D/repo" )
+fi
 ( cd "$D/repo" && patch -p1 -s < "$PATCH" )
 VERIF_REPO="$D/repo" "$@"
